@@ -1,5 +1,6 @@
 //! itmc — bounded exhaustive exploration (model checking) of the real indextree arena.
 mod deep;
+mod deepops;
 mod explore;
 mod free;
 mod judges;
@@ -359,6 +360,48 @@ fn cmd_sweep(args: &[String]) -> i32 {
         };
         let base = explore::explore(&mk(Init::New), &known);
         let mut caps: Vec<Value> = Vec::new();
+        // behaviour must not depend on spare capacity: the deep history on arenas that differ only
+        // in capacity (which Clone, == and clear() do not carry) issues the same ids
+        {
+            let n = if tier == "quick" { 70_000usize } else { 140_000 };
+            let mk: Vec<(&str, indextree::Arena<payload::Payload>)> = vec![
+                ("Arena::new()", indextree::Arena::new()),
+                ("with_capacity(1)", indextree::Arena::with_capacity(1)),
+                ("with_capacity(100)", indextree::Arena::with_capacity(100)),
+                ("new() + reserve(50)", { let mut a = indextree::Arena::new(); a.reserve(50); a }),
+                ("filled, cleared", { let mut a = indextree::Arena::new(); for i in 0..7u8 { a.new_node(payload::Payload(i)); } a.clear(); a }),
+            ];
+            let r = ops::guarded(|| {
+                let mut arenas = mk;
+                // two extra live nodes first, so that the cycled slot is not the only one
+                let mut bad: Option<String> = None;
+                for (_, a) in arenas.iter_mut() {
+                    a.new_node(payload::Payload(1));
+                    a.new_node(payload::Payload(2));
+                }
+                'outer: for c in 0..n {
+                    let mut first: Option<indextree::NodeId> = None;
+                    for (name, a) in arenas.iter_mut() {
+                        let id = a.new_node(payload::Payload(0));
+                        match first {
+                            None => first = Some(id),
+                            Some(f) if f != id => {
+                                bad = Some(format!("in cycle {c} of (new_node; remove) after two live nodes, {name} issues {} but Arena::new() issues {}", obs::fmt_id(Some(id)), obs::fmt_id(Some(f))));
+                                break 'outer;
+                            }
+                            _ => {}
+                        }
+                        id.remove(a);
+                    }
+                }
+                bad
+            });
+            match r {
+                Ok(None) => caps.push(json!({"capacity_independence_deep_twin_cycles": n, "arenas": 5, "agree": true})),
+                Ok(Some(why)) => extra_unknown += emit_simple("C13", "capacity-twin|deep-cycle|-|ids-depend-on-capacity", &why, &known, json!({"engine": "sweep"})),
+                Err(e) => extra_unknown += emit_simple("C13", "capacity-twin|deep-cycle|-|panicked", &format!("the deep history panicked: {e}"), &known, json!({"engine": "sweep"})),
+            }
+        }
         for k in [20_000usize, 1_000_000] {
             let a0: indextree::Arena<payload::Payload> = indextree::Arena::with_capacity(k);
             caps.push(json!({"with_capacity": k, "capacity": a0.capacity()}));
@@ -1094,6 +1137,12 @@ fn main() {
                 2
             }
         },
+        Some("deepops") => {
+            let prop = arg(&args, "--prop").unwrap_or_else(|| machinery("--prop required"));
+            let depth: usize = arg(&args, "--depth").and_then(|s| s.parse().ok()).unwrap_or(200_000);
+            deepops::run(&prop, depth);
+            0
+        }
         Some("replay") => match std::panic::catch_unwind(|| cmd_replay(&args)) {
             Ok(c) => c,
             Err(e) => {
